@@ -89,6 +89,15 @@ def generate(ctx):
     ctx.facts = {}
     text, facts = gen_watch.generate()
     ctx.write_gen("GenWatch.v", text)
+    # the statement-level translations of record_change / process_nglob_changes / will_change (gen_nglob_batch)
+    # and extend / reduce (gen_nglob_code) that proofs/WatchTie.v ties C14's model to: regenerated from the same
+    # tree on every run of this check as well (C17 writes the same text from the same tree)
+    from translator import gen_nglob_batch, gen_nglob_code
+    btext, bfacts = gen_nglob_batch.generate()
+    ctx.write_gen("GenNglobBatch.v", btext)
+    ctext, _cfacts = gen_nglob_code.generate()
+    ctx.write_gen("GenNglobCode.v", ctext)
+    ctx.stats["record_change_translated_set_operations"] = len(bfacts.get("branches", []))
     ctx.facts = facts
     ctx.stats["isdir_emits_self"] = facts["isdir_emits_self"]
     ctx.stats["commit_attached_only"] = facts["commit_attached_only"]
